@@ -4,9 +4,10 @@
 //
 // Input : $VERIF_SCHED    JSON array of scenarios
 // Output: $VERIF_TRACE    NDJSON, one line per step
-//         $VERIF_PROGRESS "<scenario id> <event index>" of the step being executed
-//                         (crash attribution), "DONE" at the end
-//         $VERIF_SKIP     number of leading scenarios to skip (resume after a crash)
+//
+//	$VERIF_PROGRESS "<scenario id> <event index>" of the step being executed
+//	                (crash attribution), "DONE" at the end
+//	$VERIF_SKIP     number of leading scenarios to skip (resume after a crash)
 //
 // Virtual time: 1 tick = 100 ms.  API calls run in their own goroutines inside
 // the bubble; a line is written after synctest.Wait() following every injected
